@@ -145,6 +145,11 @@ class Ctx:
                     self.broken.append(f"theorem {n}")
         for f, tok in a["forbidden"]:
             self.broken.append(f"forbidden token {tok!r} in {f}")
+        if self.thorough and good:
+            okc, outc = lean.leancheck(good)
+            self.extra["leanchecker"] = "replayed " + ", ".join(good) + (": ok" if okc else ": FAILED " + outc[-500:])
+            if not okc:
+                self.broken.append("leanchecker rejects the compiled modules")
         self.extra["axioms"] = sorted({x for v in a["theorems"].values() for x in v})
         self.extra["modules"] = modules
         return not self.broken
